@@ -30,6 +30,10 @@ def main(argv):
 
         if len(argv) >= 3 and argv[1] == "--replay":
             return runner.replay(prop, argv[2])
+        if len(argv) >= 4 and argv[1] == "--exec-program":
+            from sim import c20_programs
+
+            return c20_programs.exec_program(argv[2], argv[3])
         tier = argv[1] if len(argv) > 1 else os.environ.get("VERIF_TIER", "quick")
         return runner.run_check(prop, tier)
     except core.HarnessError as e:
